@@ -879,4 +879,29 @@ theorem Walk.expanded_children {P o es st ts st'} (h : Walk P o es st ts st') :
       · exact ih1 t ht hx
       · exact ih2 t ht hx
 
+
+/-! ## validate_toc_entries -/
+
+theorem validate_fold (bad : Entry → Bool) (xs : List Entry) :
+    ∀ g : List Entry, (∀ y ∈ g, bad y = false) →
+      xs.foldl (fun l e => if bad e then l.erase e else l) (g ++ xs) = g ++ xs.filter (fun e => !bad e) := by
+  induction xs with
+  | nil => intro g _; simp
+  | cons x xs ih =>
+    intro g hg
+    by_cases hb : bad x = true
+    · have hx : x ∉ g := fun hm => by have := hg x hm; simp [hb] at this
+      have : (g ++ x :: xs).erase x = g ++ xs := by
+        rw [List.erase_append_right _ hx]; simp
+      simp only [List.foldl_cons, hb, if_true, this]
+      rw [ih g hg]; simp [hb]
+    · have hb' : bad x = false := by simpa using hb
+      simp only [List.foldl_cons, hb', Bool.false_eq_true, if_false]
+      have := ih (g ++ [x]) (by
+        intro y hy; rcases List.mem_append.1 hy with h | h
+        · exact hg y h
+        · simp at h; subst h; exact hb')
+      simp only [List.append_assoc, List.singleton_append] at this
+      rw [this]; simp [hb']
+
 end SnootyVerif.Toc
